@@ -61,11 +61,13 @@ func genC29(t *rapid.T) c29Case {
 				c.Post++
 			}
 		}
-		c.Lines = rapid.IntRange(1, 200).Draw(t, "lines")
-		c.FlushAfter = rapid.IntRange(0, max(0, c.During*c.Lines)).Draw(t, "flushafter")
+		// long writers first: overlap with Flush needs writers that live long enough
+		c.Lines = rapid.SampledFrom([]int{200, 100, 150, 50, 120, 20, 10, 5, 2, 1, 3, 30, 75}).Draw(t, "lines")
+		// tenths of the "during" writes, middle first (rapid favours the front)
+		c.FlushAfter = c.During * c.Lines * rapid.SampledFrom([]int{5, 3, 7, 2, 8, 1, 9, 0, 10}).Draw(t, "flushafter") / 10
 		c.Reps = rapid.IntRange(1, 4).Draw(t, "reps")
 		return c
-	case 3, 4:
+	case 3:
 		c := c29Case{Kind: 1, Buf: rapid.IntRange(1, 64).Draw(t, "buf")}
 		n := rapid.IntRange(1, 150).Draw(t, "nops")
 		for i := 0; i < n; i++ {
@@ -78,7 +80,7 @@ func genC29(t *rapid.T) c29Case {
 		c.Lines = rapid.IntRange(1, 100).Draw(t, "lines")
 		na := rapid.IntRange(1, 3).Draw(t, "nattach")
 		for i := 0; i < na; i++ {
-			c.AttachAt = append(c.AttachAt, rapid.IntRange(0, c.Writers*c.Lines).Draw(t, "attachat"))
+			c.AttachAt = append(c.AttachAt, c.Writers*c.Lines*rapid.SampledFrom([]int{5, 3, 7, 2, 8, 1, 9, 0, 10}).Draw(t, "attachat")/10)
 		}
 		return c
 	}
@@ -119,6 +121,27 @@ func (m *c29Mon) snapshot() []string {
 	m.mu.Lock()
 	defer m.mu.Unlock()
 	return append([]string(nil), m.lines...)
+}
+
+// c29Barrier is a spinning start barrier: all parties are running (not parked
+// on a channel) when they are released, which makes real overlap likely.
+type c29Barrier struct {
+	ready atomic.Int64
+	open  atomic.Bool
+}
+
+func (b *c29Barrier) wait() {
+	b.ready.Add(1)
+	for !b.open.Load() {
+		runtime.Gosched()
+	}
+}
+
+func (b *c29Barrier) release(parties int) {
+	for b.ready.Load() < int64(parties) {
+		runtime.Gosched()
+	}
+	b.open.Store(true)
 }
 
 func c29Line(w, i int) string { return fmt.Sprintf("w%02d-%04d", w, i) }
@@ -187,32 +210,32 @@ func c29GatedRound(c c29Case, x *vkit.Ctx) (overlap int, bad bool) {
 
 	// phase A: pre writers, all done before Flush is called
 	var wg sync.WaitGroup
-	startA := make(chan struct{})
+	var startA c29Barrier
 	for w := 0; w < c.Pre; w++ {
 		wg.Add(1)
 		go func(w int) {
 			defer wg.Done()
-			<-startA
+			startA.wait()
 			for i := 0; i < c.Lines; i++ {
 				gw.Write([]byte(c29Line(w, i) + "\n"))
 			}
 		}(w)
 	}
-	close(startA)
+	startA.release(c.Pre)
 	wg.Wait()
 
 	// phase B: during writers and the flusher; phase C: post writers
 	var flushCalled atomic.Bool
 	var duringDone atomic.Int64
 	var overlapping atomic.Int64
-	startB := make(chan struct{})
+	var startB c29Barrier
 	flushed := make(chan struct{})
 	flushAfter := int64(min(max(c.FlushAfter, 0), c.During*c.Lines))
 	for w := c.Pre; w < c.Pre+c.During; w++ {
 		wg.Add(1)
 		go func(w int) {
 			defer wg.Done()
-			<-startB
+			startB.wait()
 			before, after := false, false
 			for i := 0; i < c.Lines; i++ {
 				b := flushCalled.Load()
@@ -234,7 +257,7 @@ func c29GatedRound(c c29Case, x *vkit.Ctx) (overlap int, bad bool) {
 	wg.Add(1)
 	go func() {
 		defer wg.Done()
-		<-startB
+		startB.wait()
 		for duringDone.Load() < flushAfter {
 			runtime.Gosched()
 		}
@@ -252,7 +275,7 @@ func c29GatedRound(c c29Case, x *vkit.Ctx) (overlap int, bad bool) {
 			}
 		}(w)
 	}
-	close(startB)
+	startB.release(c.During + 1)
 	wg.Wait()
 	overlap = int(overlapping.Load())
 
@@ -265,7 +288,16 @@ func c29GatedRound(c c29Case, x *vkit.Ctx) (overlap int, bad bool) {
 			pos[w][i] = -1
 		}
 	}
+	empties, firstEmpty := 0, -1
 	for idx, l := range out {
+		if l == "" {
+			// judged below: an empty write is what a torn buffer produces
+			empties++
+			if firstEmpty < 0 {
+				firstEmpty = idx
+			}
+			continue
+		}
 		w, i, ok := c29Parse(strings.TrimSuffix(l, "\n"))
 		if !ok || !strings.HasSuffix(l, "\n") || w >= nw || i >= c.Lines {
 			x.Violationf("gated-foreign-line", "underlying writer received %q which nobody wrote (position %d of %d)", l, idx, len(out))
@@ -291,6 +323,10 @@ func c29GatedRound(c c29Case, x *vkit.Ctx) (overlap int, bad bool) {
 	if lost > 0 {
 		x.Violationf("gated-lines-lost-concurrent-writers", "%d of %d lines never reached the underlying writer (first: %q); %d writers finished before Flush, %d ran during it, %d after, %d lines each",
 			lost, nw*c.Lines, firstLost, c.Pre, c.During, c.Post, c.Lines)
+		return overlap, true
+	}
+	if empties > 0 {
+		x.Violationf("gated-empty-write", "the underlying writer received %d empty writes nobody made (first at position %d of %d)", empties, firstEmpty, len(out))
 		return overlap, true
 	}
 	for w := range pos {
@@ -413,12 +449,12 @@ func c29LogConc(c c29Case, x *vkit.Ctx) {
 	total := c.Writers * c.Lines
 	var done atomic.Int64
 	var wg sync.WaitGroup
-	start := make(chan struct{})
+	var start c29Barrier
 	for w := 0; w < c.Writers; w++ {
 		wg.Add(1)
 		go func(w int) {
 			defer wg.Done()
-			<-start
+			start.wait()
 			for i := 0; i < c.Lines; i++ {
 				l := c29Line(w, i)
 				if (w+i)%3 != 0 {
@@ -438,7 +474,7 @@ func c29LogConc(c c29Case, x *vkit.Ctx) {
 		wg.Add(1)
 		go func(k int, at int64) {
 			defer wg.Done()
-			<-start
+			start.wait()
 			for done.Load() < at {
 				runtime.Gosched()
 			}
@@ -449,7 +485,7 @@ func c29LogConc(c c29Case, x *vkit.Ctx) {
 			atts[k] = att{m, lo, hi}
 		}(k, int64(min(max(at, 0), total)))
 	}
-	close(start)
+	start.release(c.Writers + len(c.AttachAt))
 	wg.Wait()
 
 	// the reference monitor: every line exactly once, each writer's in order
